@@ -74,7 +74,7 @@ fn main() {
     ck.assume("old/new reference states are read by a fresh instance from the directory before/after the completed operation (what a completed save preserves is C05/C10/C17)");
     ck.assume("hooks: the file in flight is tracked from the crash_point labels (dirty until a *.after_sync site; a rename carries it over)");
 
-    let n = tier.pick(40u64, 4000u64);
+    let n = tier.pick(240u64, 12_000u64);
     let shards = 16usize;
     let mut walls = serde_json::Map::new();
     walls.insert("index".into(), crash::run_section::<index::Index>(&mut ck, n, shards).into());
